@@ -79,6 +79,10 @@ STATEMENT_STATUS: Dict[str, str] = {
     "C02_cue_header": "proved (round 2): PDFOBJ_CUE matcher accepts every rendered `n g obj` header",
     "C02_revreadlines_bufsize": "proved (all b >= 1, all byte strings)",
     "C02_startxref_bufsize": "proved (corollary)",
+    "C02_find_xref": "proved (round 6): find_xref returns the first non-blank line after the LAST startxref line, any bytes before, any buffer size",
+    "C02_find_xref_none": "proved (round 6): no startxref line -> PDFNoValidXRef",
+    "C02_find_xref_tail / C02_find_xref_written": "proved (round 6): every tail layout of the Lean tail writer (blanks, blank lines, EOL style, "
+                                                  "0..k final EOLs) yields exactly the offset written; writer bytes compared per file (q.tail)",
     "C02_damaged_cex": "proved counter-example (open finding wellformed-but-wrong-xref-no-rescan)",
     "C02_damaged_partial": "partial: the damaged-file clause holds when the cross-reference data that parses is right; "
                            "a parsable but wrong table is never rebuilt (open finding)",
@@ -840,6 +844,10 @@ def tie_case(ctx: C.Ctx, case: Dict[str, Any], data: bytes, layout: Dict[str, An
                 q = "q.encrows %s %s" % (csv(part["w"]), ",".join("%d/%d/%d" % r[1:4] for r in part["rows"]) or "-")
                 twins.append((q, C.hx(part["data"])))
     qlines += [q for q, _ in twins]
+    # the tail of the file (startxref / offset / %%EOF) as the Lean writer renders it: C02_find_xref_written
+    xp = layout["startxref"]
+    qtail = f"q.tail {case.get('tail', 'normal')} {eol_name} {len(str(xp))} {xp}"
+    qlines.append(qtail)
     out = ctx.driver.ask(lines + qlines)
     inp = {"kind": "history", "case": case, "queries": queries}
     if any(o != "ok" for o in out[:nsetup]):
@@ -850,6 +858,11 @@ def tie_case(ctx: C.Ctx, case: Dict[str, Any], data: bytes, layout: Dict[str, An
         ctx.branch("twin:" + q.split(" ")[0])
         if r[q] != want:
             ctx.disagree("writer-twin " + q.split(" ")[0], inp, want[:200], r[q][:200])
+    ctx.branch("twin:q.tail:" + case.get("tail", "normal") + ":" + eol_name)
+    thex, _, tfits = r[qtail].partition(" ")
+    if tfits != "true" or not data.endswith(bytes.fromhex(thex if thex != "-" else "")) \
+            or data.rfind(b"startxref") != len(data) - len(thex) // 2:
+        ctx.disagree("writer-twin q.tail", inp, C.hx(data[-60:]), r[qtail][:200])
     try:
         with Watchdog(30.0):
             _tie_compare(ctx, inp, data, layout, queries, exp, bufs, r, qs, bound, tparts, containers)
